@@ -108,7 +108,10 @@ func CuratedSpecs() []*StructSpec {
 		f(5, Default, tmap(ts(KI32), tref("DefW", false))).
 		f(6, Default, tlist(tref("DefF", false))).
 		f(7, Optional, tref("DefH", false)).
-		f(8, Default, tmap(tref("DefF", true), ts(KBool))))
+		f(8, Default, tmap(tref("DefF", true), ts(KBool))).
+		// by-value map values whose initialiser assigns field by field (it does not reset the rest)
+		f(9, Default, tmap(ts(KString), tref("DefF", false))).
+		f(10, Optional, tmap(ts(KI32), tref("DefH", false))))
 	// by-value nesting without defaults, with holders inside containers
 	add(newS("ValIn").f(1, Default, ts(KI32)).f(2, Optional, ts(KString), "ptr").f(3, Default, tlist(ts(KI64))).holder())
 	add(newS("ValOut").
